@@ -17,41 +17,51 @@ Proof.
              | H : field_eqb _ _ = true |- _ => apply field_eqb_eq in H
              | H : Nat.eqb _ _ = true |- _ => apply Nat.eqb_eq in H
              end; subst; reflexivity.
-  - intros <-. destruct x; cbn; rewrite ?Nat.eqb_refl; destruct f; reflexivity.
+  - intros <-. destruct x; cbn; rewrite ?Nat.eqb_refl; try reflexivity; destruct f; reflexivity.
 Qed.
 
 Lemma ref_eqb_refl x : ref_eqb x x = true.
 Proof. now apply ref_eqb_eq. Qed.
 
 (* ---- static classes of reference names ---------------------------------------------------------- *)
-Inductive cls := CEval | CAny | CWork | CRes.
+(* foreign memory / any view / work copy / delivered array / perturbed variables / request matrix *)
+Inductive cls := CEval | CAny | CWork | CRes | CPert | CReq.
 Definition cls_of (r : ref) : cls :=
   match r with
-  | EvalArr _ => CEval
-  | Trans _ _ | Piece _ _ _ | Shaped _ _ _ => CAny
+  | EvalArr _ | CallerVec => CEval
+  | Trans _ _ | Piece _ _ _ | Shaped _ _ _ | TPiece _ _ _ => CAny
   | Work _ _ _ => CWork
-  | Res _ _ _ => CRes
+  | Res _ _ _ | TRes _ _ _ => CRes
+  | Pert _ => CPert
+  | Req _ => CReq
   end.
 Definition cls_eqb (a b : cls) : bool :=
-  match a, b with CEval, CEval | CAny, CAny | CWork, CWork | CRes, CRes => true | _, _ => false end.
+  match a, b with
+  | CEval, CEval | CAny, CAny | CWork, CWork | CRes, CRes | CPert, CPert | CReq, CReq => true
+  | _, _ => false
+  end.
 Lemma cls_eqb_eq a b : cls_eqb a b = true <-> a = b.
 Proof. destruct a, b; cbn; split; congruence. Qed.
 
 Definition mem (r : ref) (D : list ref) : bool := existsb (ref_eqb r) D.
 Definition is_evalobj (o : obj) : bool := match o with EvalObj => true | _ => false end.
 
-(* the typing discipline: copies may be bound to any non-evaluator name; views only to "any" names;
-   ropt writes only through work names and delivers only result names, both already defined by a copy *)
+(* the typing discipline: copies may be bound to any name that is not foreign; views only to "any" names,
+   except that a request matrix may be a view of the perturbed variables; ropt writes only through work
+   names and delivers only result names, both already defined by a copy; the evaluator is only ever given
+   request matrices *)
 Fixpoint wt (D : list ref) (ops : list op) : bool :=
   match ops with
   | [] => true
   | Copy _ dst :: t | Fresh _ dst :: t => negb (cls_eqb (cls_of dst) CEval) && wt (dst :: D) t
-  | View _ dst :: t => cls_eqb (cls_of dst) CAny && wt D t
+  | View src dst :: t =>
+      (cls_eqb (cls_of dst) CAny || (cls_eqb (cls_of dst) CReq && cls_eqb (cls_of src) CPert && mem src D)) && wt D t
   | WriteRows a :: t => cls_eqb (cls_of a) CWork && mem a D && wt D t
   | NewObj _ :: t => wt D t
   | SetAttr o _ :: t => negb (is_evalobj o) && wt D t
   | Deliver a :: t => cls_eqb (cls_of a) CRes && mem a D && wt D t
-  | EvalWrite _ :: t => wt D t
+  | GiveEval a :: t | EvalWriteRef a :: t => cls_eqb (cls_of a) CReq && wt D t
+  | EvalWrite _ :: t | CallerWrite :: t => wt D t
   end.
 
 (* ---- semantic invariant and soundness ----------------------------------------------------------- *)
@@ -59,22 +69,27 @@ Definition inv (e : env) : Prop :=
   forall r b o, e r = Some (b, o) ->
     (cls_of r = CWork -> o = Ropt /\ cls_of b = CWork) /\
     (cls_of r = CRes -> o = Ropt /\ cls_of b = CRes) /\
-    (cls_of r = CEval -> b = r /\ o = Evaluator).
+    (cls_of r = CEval -> b = r /\ o <> Ropt) /\
+    (cls_of r = CPert -> o = Ropt /\ cls_of b = CPert) /\
+    (cls_of r = CReq -> o = Ropt /\ (cls_of b = CReq \/ cls_of b = CPert)).
 
 Definition defined (D : list ref) (e : env) : Prop := forall r, mem r D = true -> e r <> None.
+
+(* writes by the evaluator or the caller never hit a work copy or a delivered array *)
+Definition soft (b : ref) : Prop := cls_of b = CEval \/ cls_of b = CReq \/ cls_of b = CPert.
 
 Definition good (ev : event) : Prop :=
   match ev with
   | EWrite Ropt (b, o) => o = Ropt /\ cls_of b = CWork
-  | EWrite Evaluator (b, o) => cls_of b = CEval
+  | EWrite _ (b, o) => soft b
   | EAttr o _ => o <> EvalObj
   | EDeliver (b, o) => o = Ropt /\ cls_of b = CRes
   end.
 
 Lemma inv_init : inv init.
 Proof.
-  intros r b o H. destruct r; cbn in H; try discriminate. injection H as <- <-.
-  repeat split; intros; try discriminate; reflexivity.
+  intros r b o H. destruct r; cbn in H; try discriminate; injection H as <- <-;
+    repeat split; intros; try discriminate; reflexivity.
 Qed.
 
 Lemma upd_same e r b : upd e r b r = Some b.
@@ -97,6 +112,16 @@ Proof.
   - exact (Hi r b o H).
 Qed.
 
+Lemma inv_upd_view_req e dst src b o :
+  inv e -> cls_of dst = CReq -> cls_of src = CPert -> e src = Some (b, o) -> inv (upd e dst (b, o)).
+Proof.
+  intros Hi Hd Hs Hsrc r b' o' H. unfold upd in H. destruct (ref_eqb dst r) eqn:E.
+  - apply ref_eqb_eq in E. subst r. injection H as <- <-. rewrite Hd.
+    destruct (proj1 (proj2 (proj2 (proj2 (Hi src b o Hsrc)))) Hs) as [Ho Hb].
+    repeat split; intros; try discriminate; auto.
+  - exact (Hi r b' o' H).
+Qed.
+
 Lemma defined_upd D e dst b : defined D e -> defined (dst :: D) (upd e dst b).
 Proof.
   intros Hd r Hm. unfold upd. destruct (ref_eqb dst r) eqn:E; [discriminate|].
@@ -109,18 +134,37 @@ Proof.
   intros Hd r Hm. unfold upd. destruct (ref_eqb dst r); [discriminate | now apply Hd].
 Qed.
 
+Lemma look_req_soft e a : inv e -> cls_of a = CReq -> soft (fst (look e a)).
+Proof.
+  intros Hi Hc. unfold look. destruct (e a) as [[b o]|] eqn:E; cbn.
+  - destruct (proj2 (proj2 (proj2 (proj2 (Hi a b o E)))) Hc) as [_ [H|H]]; unfold soft; auto.
+  - unfold soft. auto.
+Qed.
+
+Lemma look_eval_soft e a : inv e -> cls_of a = CEval -> soft (fst (look e a)).
+Proof.
+  intros Hi Hc. unfold look. destruct (e a) as [[b o]|] eqn:E; cbn.
+  - destruct (proj1 (proj2 (proj2 (Hi a b o E))) Hc) as [-> _]. unfold soft. auto.
+  - unfold soft. auto.
+Qed.
+
 Theorem wt_sound ops : forall D e, inv e -> defined D e -> wt D ops = true -> Forall good (run e ops).
 Proof.
   induction ops as [|o t IH]; intros D e Hi Hd Hw; [constructor|].
-  destruct o as [src dst|src dst|src dst|a|ob|ob f|a|f]; cbn in Hw |- *.
+  destruct o as [src dst|src dst|src dst|a|ob|ob f|a|a|f|a|]; cbn in Hw |- *.
   - apply andb_prop in Hw as [Hc Hw]. apply negb_true_iff in Hc.
     apply (IH (dst :: D)); [apply inv_upd_fresh; [exact Hi|] | now apply defined_upd | exact Hw].
     intros E. apply cls_eqb_eq in E. congruence.
   - apply andb_prop in Hw as [Hc Hw]. apply negb_true_iff in Hc.
     apply (IH (dst :: D)); [apply inv_upd_fresh; [exact Hi|] | now apply defined_upd | exact Hw].
     intros E. apply cls_eqb_eq in E. congruence.
-  - apply andb_prop in Hw as [Hc Hw]. apply cls_eqb_eq in Hc.
-    apply (IH D); [now apply inv_upd_view | now apply defined_upd_keep | exact Hw].
+  - apply andb_prop in Hw as [Hc Hw]. apply orb_true_iff in Hc as [Hc|Hc].
+    + apply cls_eqb_eq in Hc. apply (IH D); [now apply inv_upd_view | now apply defined_upd_keep | exact Hw].
+    + apply andb_prop in Hc as [Hc Hm]. apply andb_prop in Hc as [Hc1 Hc2].
+      apply cls_eqb_eq in Hc1. apply cls_eqb_eq in Hc2.
+      apply (IH D); [|now apply defined_upd_keep | exact Hw].
+      unfold look. destruct (e src) as [[b o]|] eqn:E; [|exfalso; exact (Hd src Hm E)].
+      now apply (inv_upd_view_req e dst src b o).
   - apply andb_prop in Hw as [Hw1 Hw]. apply andb_prop in Hw1 as [Hc Hm]. apply cls_eqb_eq in Hc.
     constructor; [|exact (IH D e Hi Hd Hw)].
     unfold look. destruct (e a) as [[b o]|] eqn:E; [|exfalso; exact (Hd a Hm E)].
@@ -132,30 +176,38 @@ Proof.
     constructor; [|exact (IH D e Hi Hd Hw)].
     unfold look. destruct (e a) as [[b o]|] eqn:E; [|exfalso; exact (Hd a Hm E)].
     cbn. exact (proj1 (proj2 (Hi a b o E)) Hc).
+  - apply andb_prop in Hw as [_ Hw]. exact (IH D e Hi Hd Hw).
   - constructor; [|exact (IH D e Hi Hd Hw)].
-    unfold look. destruct (e (EvalArr f)) as [[b o]|] eqn:E; cbn; [|reflexivity].
-    destruct (proj2 (proj2 (Hi _ b o E)) eq_refl) as [-> _]. reflexivity.
+    pose proof (look_eval_soft e (EvalArr f) Hi eq_refl) as Hs. destruct (look e (EvalArr f)) as [b o]. exact Hs.
+  - apply andb_prop in Hw as [Hc Hw]. apply cls_eqb_eq in Hc. constructor; [|exact (IH D e Hi Hd Hw)].
+    pose proof (look_req_soft e a Hi Hc) as Hs. destruct (look e a) as [b o]. exact Hs.
+  - constructor; [|exact (IH D e Hi Hd Hw)].
+    pose proof (look_eval_soft e CallerVec Hi eq_refl) as Hs. destruct (look e CallerVec) as [b o]. exact Hs.
 Qed.
 
 (* good events are not foreign, and nothing is written into a delivered buffer *)
 Lemma good_not_foreign evs : Forall good evs -> foreign_events evs = [].
 Proof.
   induction 1 as [|ev evs Hg _ IH]; [reflexivity|]. unfold foreign_events in *. cbn. rewrite IH.
-  destruct ev as [[|] [b o]|o f|[b o]]; cbn in *.
+  destruct ev as [[| |] [b o]|o f|[b o]]; cbn in *.
+  - reflexivity.
   - reflexivity.
   - destruct Hg as [-> _]. reflexivity.
   - destruct o; [contradiction | reflexivity].
   - destruct Hg as [-> _]. reflexivity.
 Qed.
 
+Lemma soft_not_res b : soft b -> cls_of b <> CRes.
+Proof. intros [H|[H|H]]; congruence. Qed.
+
 Lemma good_write_not_res evs b :
   Forall good evs -> cls_of (fst b) = CRes ->
   filter (fun ev => match ev with EWrite _ b' => buf_eqb b b' | _ => false end) evs = [].
 Proof.
   intros H Hb. induction H as [|ev evs Hg _ IH]; [reflexivity|]. cbn. rewrite IH.
-  destruct ev as [[|] [b' o]|o f|b']; try reflexivity; cbn in Hg;
+  destruct ev as [[| |] [b' o]|o f|b']; try reflexivity; cbn in Hg;
     (destruct (buf_eqb b (b', o)) eqn:E; [|reflexivity]; unfold buf_eqb in E; apply ref_eqb_eq in E; cbn in E;
-     rewrite E in Hb; [congruence || (destruct Hg; congruence)]).
+     rewrite E in Hb; exfalso; first [exact (soft_not_res _ Hg Hb) | destruct Hg; congruence]).
 Qed.
 
 Lemma good_no_late_writes evs : Forall good evs -> late_writes evs = [].
@@ -170,56 +222,80 @@ Proof.
   induction ops as [|o t IH]; intros D D' Hs Hw; [reflexivity|].
   assert (Hcons : forall d r, mem r (d :: D) = true -> mem r (d :: D') = true).
   { intros d r. unfold mem. cbn. rewrite !orb_true_iff. intros [H|H]; [now left | right; now apply Hs]. }
-  destruct o as [src dst|src dst|src dst|a|ob|ob f|a|f]; cbn in Hw |- *.
+  destruct o as [src dst|src dst|src dst|a|ob|ob f|a|a|f|a|]; cbn in Hw |- *.
   - apply andb_prop in Hw as [Hc Hw]. rewrite Hc. cbn. exact (IH _ _ (Hcons dst) Hw).
   - apply andb_prop in Hw as [Hc Hw]. rewrite Hc. cbn. exact (IH _ _ (Hcons dst) Hw).
-  - apply andb_prop in Hw as [Hc Hw]. rewrite Hc. cbn. exact (IH _ _ Hs Hw).
+  - apply andb_prop in Hw as [Hc Hw]. rewrite (IH _ _ Hs Hw), andb_true_r.
+    apply orb_true_iff in Hc as [Hc|Hc]; [now rewrite Hc|].
+    apply andb_prop in Hc as [Hc Hm]. now rewrite Hc, (Hs _ Hm), orb_true_r.
   - apply andb_prop in Hw as [Hw1 Hw]. apply andb_prop in Hw1 as [Hc Hm]. rewrite Hc, (Hs _ Hm). cbn. exact (IH _ _ Hs Hw).
   - exact (IH _ _ Hs Hw).
   - apply andb_prop in Hw as [Hc Hw]. rewrite Hc. cbn. exact (IH _ _ Hs Hw).
   - apply andb_prop in Hw as [Hw1 Hw]. apply andb_prop in Hw1 as [Hc Hm]. rewrite Hc, (Hs _ Hm). cbn. exact (IH _ _ Hs Hw).
+  - apply andb_prop in Hw as [Hc Hw]. rewrite Hc. cbn. exact (IH _ _ Hs Hw).
+  - exact (IH _ _ Hs Hw).
+  - apply andb_prop in Hw as [Hc Hw]. rewrite Hc. cbn. exact (IH _ _ Hs Hw).
   - exact (IH _ _ Hs Hw).
 Qed.
 
 Lemma wt_app p1 : forall p2 D, wt D p1 = true -> (forall D', wt D' p2 = true) -> wt D (p1 ++ p2) = true.
 Proof.
   induction p1 as [|o t IH]; intros p2 D H1 H2; [apply H2|].
-  destruct o as [src dst|src dst|src dst|a|ob|ob f|a|f]; cbn in H1 |- *.
-  - apply andb_prop in H1 as [Hc H1]. rewrite Hc. cbn. now apply IH.
-  - apply andb_prop in H1 as [Hc H1]. rewrite Hc. cbn. now apply IH.
-  - apply andb_prop in H1 as [Hc H1]. rewrite Hc. cbn. now apply IH.
-  - apply andb_prop in H1 as [Hc H1]. rewrite Hc. cbn. now apply IH.
-  - now apply IH.
-  - apply andb_prop in H1 as [Hc H1]. rewrite Hc. cbn. now apply IH.
-  - apply andb_prop in H1 as [Hc H1]. rewrite Hc. cbn. now apply IH.
-  - now apply IH.
+  destruct o as [src dst|src dst|src dst|a|ob|ob f|a|a|f|a|]; cbn in H1 |- *;
+    try (apply andb_prop in H1 as [Hc H1]; rewrite Hc; cbn); now apply IH.
 Qed.
 
 Lemma wt_closed ops : wt [] ops = true -> forall D, wt D ops = true.
 Proof. intros H D. apply (wt_mono ops [] D); [intros r Hr; discriminate | exact H]. Qed.
 
-Lemma wt_transform c p : wt [] (transform_ops head c p) = true.
-Proof. destruct p as [s con to tc]. destruct con, to, tc; reflexivity. Qed.
-
-Lemma wt_block c p b : wt [] (block_ops head c p b) = true.
+Lemma wt_request c p : wt [] (request_ops c p) = true.
 Proof.
-  destruct p as [s con to tc]. unfold block_ops, propagate_ops, cond, mem. cbn.
-  destruct con; cbn; rewrite ?Nat.eqb_refl; reflexivity.
+  destruct p as [s con to tc tv us]. unfold request_ops, mem. cbn.
+  destruct s; [reflexivity | destruct tv; cbn; rewrite ?Nat.eqb_refl; reflexivity | reflexivity].
+Qed.
+
+Lemma wt_transform c p : wt [] (transform_ops head c p) = true.
+Proof. destruct p as [s con to tc tv us]. destruct con, to, tc; reflexivity. Qed.
+
+Lemma wt_user c p b fs : forall D,
+  wt D (flat_map (fun f => [(if transformed p f then Fresh else View) (Res c f b) (TPiece c f b);
+                            Copy (TPiece c f b) (TRes c f b); Deliver (TRes c f b)]) fs) = true.
+Proof.
+  induction fs as [|f fs IH]; intros D; [reflexivity|]. cbn [flat_map].
+  apply wt_app; [|exact IH].
+  destruct (transformed p f); cbn; unfold mem; cbn; destruct f; cbn; rewrite ?Nat.eqb_refl; reflexivity.
+Qed.
+
+Lemma wt_block c p b : forall D, wt D (block_ops head c p b) = true.
+Proof.
+  intros D. apply wt_closed. unfold block_ops. rewrite !app_assoc. apply wt_app.
+  2:{ intros D'. destruct (p_user p); [apply wt_user | reflexivity]. }
+  destruct p as [s con to tc tv us]. unfold propagate_ops, cond, mem. cbn [p_shape p_con head bug_var bug_info bug_nan].
+  destruct (grad_block s b); destruct con; cbn; rewrite ?Nat.eqb_refl; reflexivity.
 Qed.
 
 Lemma wt_blocks c p bs : forall D, wt D (flat_map (block_ops head c p) bs) = true.
 Proof.
   induction bs as [|b bs IH]; intros D; [reflexivity|]. cbn [flat_map].
-  apply wt_app; [apply wt_closed, wt_block | exact IH].
+  apply wt_app; [apply wt_block | exact IH].
 Qed.
 
 Lemma wt_call c p : forall D, wt D (call_ops head c p) = true.
-Proof. intros D. unfold call_ops. apply wt_app; [apply wt_closed, wt_transform | apply wt_blocks]. Qed.
+Proof.
+  intros D. unfold call_ops. apply wt_app; [apply wt_closed, wt_request|]. intros D'.
+  apply wt_app; [apply wt_closed, wt_transform | apply wt_blocks].
+Qed.
+
+Lemma wt_reuse c : forall D, wt D (reuse_ops c) = true.
+Proof.
+  intros D. unfold reuse_ops. cbn [app wt]. generalize (seq 0 (S c)) as l.
+  induction l as [|c' l IH]; [reflexivity|]. cbn. exact IH.
+Qed.
 
 Lemma wt_history ps : forall c D, wt D (history_ops head c ps) = true.
 Proof.
   induction ps as [|p ps IH]; intros c D; [reflexivity|]. cbn [history_ops].
-  apply wt_app; [apply wt_call|]. intros D'. apply wt_app; [reflexivity | apply IH].
+  apply wt_app; [apply wt_call|]. intros D'. apply wt_app; [apply wt_reuse | apply IH].
 Qed.
 
 Theorem history_good ps c : Forall good (run init (history_ops head c ps)).
